@@ -26,6 +26,7 @@
 class NukedOPN2 final : public OPNChipBaseT<NukedOPN2>
 {
     void *chip;
+    uint32_t m_chipType;
 public:
     explicit NukedOPN2(OPNFamily f, bool ym3438);
     ~NukedOPN2() override;
